@@ -174,20 +174,6 @@ void parity_size(struct snapraid_parity_handle* handle, data_off_t* out_size)
 	*out_size = size;
 }
 
-int parity_is_on_disk(struct snapraid_parity_handle* handle)
-{
-	unsigned s;
-
-	for (s = 0; s < handle->split_mac; ++s) {
-		struct snapraid_split_handle* split = &handle->split_map[s];
-
-		if (split->st.st_size < split->size)
-			return 0;
-	}
-
-	return 1;
-}
-
 int parity_create(struct snapraid_parity_handle* handle, const struct snapraid_parity* parity, unsigned level, int mode, uint32_t block_size, data_off_t limit_size)
 {
 	unsigned s;
